@@ -340,7 +340,15 @@ std::vector<float> spreadCells(const std::vector<float> &targets,
 
 std::vector<float> HierarchicalDensityPlacement::spreadCoordX(
     const std::vector<float> &target) const {
+  assert((int)target.size() == nbCells());
+  // Cells that are in no bin (no demand) keep their target, clamped to the
+  // placement area
+  float areaMin = placementArea().minX;
+  float areaMax = placementArea().maxX;
   std::vector<float> ret(nbCells(), 0.0f);
+  for (int c = 0; c < nbCells(); ++c) {
+    ret[c] = std::min(std::max(target[c], areaMin), areaMax);
+  }
   for (int i = 0; i < nbBinsX(); ++i) {
     for (int j = 0; j < nbBinsY(); ++j) {
       std::vector<float> binTargets;
@@ -361,7 +369,15 @@ std::vector<float> HierarchicalDensityPlacement::spreadCoordX(
 
 std::vector<float> HierarchicalDensityPlacement::spreadCoordY(
     const std::vector<float> &target) const {
+  assert((int)target.size() == nbCells());
+  // Cells that are in no bin (no demand) keep their target, clamped to the
+  // placement area
+  float areaMin = placementArea().minY;
+  float areaMax = placementArea().maxY;
   std::vector<float> ret(nbCells(), 0.0f);
+  for (int c = 0; c < nbCells(); ++c) {
+    ret[c] = std::min(std::max(target[c], areaMin), areaMax);
+  }
   for (int i = 0; i < nbBinsX(); ++i) {
     for (int j = 0; j < nbBinsY(); ++j) {
       std::vector<float> binTargets;
